@@ -37,7 +37,7 @@ mechanism applies to the case).  Mechanisms and their predicates (class flags of
                                 predicate: the two lengths differ (every odd N) -> ValueError
   mtf-circular-aliasing         FFT of a PSF sampled below Nyquist: predicate grid < 2N-1
   working-fno-abs-magnification FFTMTF._get_fno: F#(1 + |m|/p) instead of F#|1 - m/p|; predicate:
-                                finite object and m/p > 0
+                                finite object and (erect image m > 0, or m/p > 1)
   geometric-mtf-infinite-fno    GeometricMTF: cut-off from paraxial.FNO() (infinite-conjugate F#);
                                 predicate: finite object
 """
@@ -57,7 +57,7 @@ RULE = ('per case one lens and one (pupil sampling N, grid) pair; every listed (
         'evaluated. Lenses: random axially symmetric refracting prescriptions from the constraint-based generator '
         '(2-7 interfaces, spheres/conics/planes, ideal and catalogue media, positive power, image in air at the '
         'paraxial focus, infinite and finite conjugates, EPD/imageFNO/objectNA apertures re-scaled to a working '
-        'F-number in [3,12], fields <= 3 deg or the equivalent object height, 1-3 wavelengths), optionally defocused '
+        'F-number in [3,12] (15% of the draws keep slower systems up to f/150), fields <= 3 deg or the equivalent object height, 1-3 wavelengths), optionally defocused '
         'by 0-30 waves through the last thickness; analytically perfect systems (paraboloid mirror and plano-hyperbolic '
         'singlet k=-n^2 at infinity, ellipsoid mirror between its foci) incl. a fixed enumeration of sampling/grid '
         'parities; a few bundled samples. N uniform in 16..256 (quick 16..128), both parities; grid from '
@@ -65,7 +65,7 @@ RULE = ('per case one lens and one (pupil sampling N, grid) pair; every listed (
         'pixels per case capped (2048 thorough only). Family per case: PSF / FFT-MTF / geometric MTF / all three on '
         'perfect systems. Non-trivial: >= 100 pupil samples in the mask and (>= 2 powered interfaces or a perfect '
         'system); distinct = distinct case hash')
-TIERS = {'quick': dict(shards=12, cases=30, budget_s=55), 'thorough': dict(shards=16, cases=150, budget_s=460)}
+TIERS = {'quick': dict(shards=12, cases=30, budget_s=55), 'thorough': dict(shards=16, cases=190, budget_s=460)}
 MIN_NONTRIVIAL = {'quick': 60, 'thorough': 1200}
 MIN_EVALS = {
     'psf-nonnegative': {'quick': 60, 'thorough': 1500}, 'psf-shape': {'quick': 60, 'thorough': 1500},
@@ -207,7 +207,8 @@ def gen_lens(rng):
         bfd = -float(ya[-2]) / float(ua[-2])
         if abs(spec['surfaces'][-2]['t'] - bfd) > 1e-6 * max(1.0, abs(bfd)):
             continue                                      # generator fell back to a non-focal image plane
-        if not np.isfinite(fno) or fno > 14.0:
+        slow_ok = rng.random() < 0.15       # a share of slow (high-magnification) systems: erect real images live there
+        if not np.isfinite(fno) or fno > (150.0 if slow_ok else 14.0):
             continue
         target = float(rng.uniform(3.0, 12.0))
         if fno < target:                                  # stop down (never open up: ray heights stay inside)
@@ -350,11 +351,13 @@ class Ctx:
         self.fno_inf = fno_inf
         self.fno_lib = fno_inf
         self.m_over_p = 0.0
+        self.mag = 0.0
         if self.finite:
             m = float(P.n[0] * ua[0] / (P.n[-1] * ua[-1]))
             xpd = 2.0 * float(ya[-1] + ua[-1] * P.XPL_from_image())
             p = xpd / epd
             self.m_over_p = m / p
+            self.mag = m
             self.fno_lib = fno_inf * (1.0 + abs(m) / p)
         self.powered = int(np.sum(np.abs(P.c[:-1] * (P.n[1:-1] - P.n[:-2])) > 0)) if P.K > 1 else 0
         N, g = self.N, self.grid
@@ -365,7 +368,8 @@ class Ctx:
         self.alias = g < 2 * N - 1
         self.axis_grid = g != 1000
         self.view_len = (self.Mlib - g // 2) != (g // 2)
-        self.fno_abs = self.finite and self.m_over_p > 0
+        # F#(1 + |m|/p) equals F#|1 - m/p| exactly when m < 0 and 1 - m/p > 0
+        self.fno_abs = self.finite and (self.mag > 0 or self.m_over_p > 1)
 
     def nu_c(self, wl):
         return 1000.0 / (wl * self.fno)
@@ -513,11 +517,13 @@ def check_psf(ctx, rec, hy, wl):
               detail=dict(asbuilt_prediction=pred))
     if ctx.case.get('view_psf') and finite:
         import matplotlib.pyplot as plt
-        try:
+        try:                                   # reach only (_get_psf_units): view() is not an observable of C11
             lib.view()
+            rec.event('psf_view_calls')
+        except Exception as e:
+            rec.cls(f'psf-view-raised-{type(e).__name__}-not-judged')
         finally:
             plt.close('all')
-        rec.event('psf_view_calls')
     rec.sample(dict(case=dict(kind=ctx.case['kind'], N=N, grid=g, hy=hy, wl=wl), pupil_samples=pup['nin'],
                     pv_waves=pup['pv'], library=dict(shape=list(psf.shape), strehl=s, peak=float(psf.max()), total=float(psf.sum())),
                     oracle=dict(strehl=want, peak=float(o['psf'].max()), total=float(o['psf'].sum()), dft=o['how'],
